@@ -53,7 +53,7 @@ CLAIMED = {
             "re-configure / other live engines, also on the same nodes or on clones of them / stand-alone distributor / append to the caller's list / continue with clones) on "
             "the real Force engine with fingerprint-deduplicated states and a differential fresh-engine oracle computed from "
             "pristine module state, plus exhaustive enumeration of input permutations",
-            "E-HIST to depth 5 (thorough 8) over 27 operations; every compute() is compared with a fresh engine, work of another engine on "
+            "E-HIST to depth 5 (thorough 8) over 23 operations; every compute() is compared with a fresh engine, work of another engine on "
             "its own labels or on clones must leave the first engine's layout and layering as they were; every replay starts "
             "from the library's import-time module state; E-INPUT: every permutation of every label multiset (n<=3; n=4 partly in "
             "quick) x configs, all 720 orders of label sets whose decimal widths sum to the split threshold, and of label sets under every budget inside the float-rounding window of their summed widths." + _N,
@@ -99,7 +99,7 @@ CLAIMED = {
             "scales) with aliasing-aware state fingerprints",
             "E-INPUT: all (domain, range, query) combinations of a 14-value float grid plus near-tie domains; the map through the reported "
             "end points after nice(m) for every ordered pair of the integers and halves -10..20; E-HIST: every call history up to depth 4 "
-            "(thorough 5; 6 for a 13-operation core alphabet) over 35 operations on <=3 scales, each state rebuilt on fresh real objects; "
+            "(thorough 5; 6 for a 13-operation core alphabet) over 27 operations on <=3 scales, each state rebuilt on fresh real objects; "
             "invariants: setters set, reported end points map to reported range (method and call form), clamped outputs stay in the "
             "range, no cross-scale interference." + _N,
             "trusted: Fraction arithmetic; fingerprint only deduplicates, it is over-fine by construction", "DESIGN.md sections 4 C12, 10"),
